@@ -392,4 +392,23 @@ theorem C16_extends_qualified_reported (fuel : Nat) (acc : List Node) (st : St) 
       = (acc, st.err "Error: Unresolvable type.") := by
   simp [extendsStep]
 
+/-- Indexed access into an interface reaches INHERITED members: when the interface's own members do not have the key and its
+    parent resolves the access to `t`, the access is `t` (fix ac8e4df; before, the access was an empty union and the props
+    type silently empty). -/
+theorem C16_indexed_access_inherited (fuel : Nat) (st st' : St) (n b : String) (ir as ias eas bas las pas pias : List String)
+    (iks piks : List Node) (tp id tps targs index t : Node) (members : List Node)
+    (h1 : lookupReg st.typeAliases (n, b) = none)
+    (h2 : lookupReg st.interfaces (n, b) = some (.mk .tsIface ias [id, tps, .mk .list eas [.mk .tsExprWithTypeArgs pas [.mk .ident pias piks, targs]],
+            .mk .tsIfaceBody bas [.mk .list las members]]))
+    (hsel : selectMembers fuel st members index = ([], st))
+    (hp : resolveIndexed fuel st (.mk .tsTypeRef [] [.mk .ident pias [], targs]) index = (some t, st'))
+    (ht : t.kind ≠ .tsUnion)
+    (hg : st.typeGaveUp = false) :
+    resolveIndexed (fuel + 1) st (.mk .tsTypeRef as [.mk .ident (n :: b :: ir) iks, tp]) index = (some t, st') := by
+  cases t with
+  | mk k tas tks =>
+    simp only [Node.kind] at ht
+    simp only [resolveIndexed, h1, h2, enterRes_ok _ _ hg, hsel, List.foldl, hp]
+    cases k <;> simp_all
+
 end VueJsx
